@@ -720,7 +720,10 @@ PROPERTIES = {
                    leanchecker=["Ysgo.Props.C12"]),
     "C16": {
         "level": "proof",
-        "streams": [{"stream": "bridge", "profile": "sample", "quick": 15000, "thorough": 400000, "predicate": no_panic,
+        "streams": [# the built-ins are converted functions too: two results of one of them alive in one expression, calls nested in arguments
+                    {"stream": "run", "profile": "numeric", "quick": 300, "thorough": 5000, "project": project_run(("res", "log"), ("text",)), "predicate": no_panic,
+                     "nontrivial": lambda obs, case: any("probe(" in o for o in obs), "shrink": shrink_ops},
+                    {"stream": "bridge", "profile": "sample", "quick": 15000, "thorough": 400000, "predicate": no_panic,
                      "nontrivial": lambda obs, case: any(o.startswith("REG OK") for o in obs)},
                     {"stream": "bridge", "profile": "all", "quick": 0, "thorough": 5161246, "tier": "thorough", "predicate": no_panic,
                      "nontrivial": lambda obs, case: any(o.startswith("REG OK") for o in obs), "timeout": 7200},
